@@ -17,7 +17,7 @@ LEVEL_TEXT = ("The real engine resolves every generated pair four ways and the a
               "variable renaming) are compared with an independent mgu; held on the pairs explored.")
 LEVEL_NOTE = "Trusts pbmon/ref/unify.py (Robinson, ~90 lines) and the problog-Term -> AST converter in gen/terms.py."
 TECHNIQUE = "runtime reference-model monitor (Robinson unifier) at the =/2, \\=/2 and clause-head boundaries"
-BUDGET = {"quick": 4000, "thorough": 80000}
+BUDGET = {"quick": 4000, "thorough": 70000}
 TIME_BUDGET = {"quick": 200, "thorough": 3000}
 CASE_TIMEOUT = 90
 PAIRS = 12
